@@ -226,6 +226,7 @@ def exec_and_check(ctx, d, name):
 
 def play(ctx, seq):
     d = daemon(ctx)
+    log_off = len(d.log_text())      # the daemon log is appended to across cases: only what this case adds is judged
     open_socks = []
     problems = []
     stats = {"malformed": 0, "wellformed": 0, "overlap": 0}
@@ -321,7 +322,7 @@ def play(ctx, seq):
         except OSError as e:
             problems.append("step %d (%s): socket error %s" % (step, b, e))
         if not d.alive():
-            problems.append("after step %d (%s): the daemon process is gone: %s" % (step, b, d.log_text()[-400:].decode("utf-8", "replace")))
+            problems.append("after step %d (%s): the daemon process is gone: %s" % (step, b, d.log_text()[log_off:][-400:].decode("utf-8", "replace")))
             break
         if not ping_ok(d):
             problems.append("after step %d (%s): the daemon does not answer PING within 2 s" % (step, b))
@@ -342,7 +343,7 @@ def play(ctx, seq):
             s.close()
         except OSError:
             pass
-    lg = d.log_text()
+    lg = d.log_text()[log_off:]
     if runner.sanitizer_report(lg):
         import re
         m = re.search(rb"(ERROR: AddressSanitizer: [^\n]*|[^\n]*runtime error:[^\n]*)", lg)
@@ -490,6 +491,8 @@ def main(tier):
             finally:
                 shutdown(cctx)
             if sum(again) < 2:
+                if os.environ.get("VERIF_DEBUG"):
+                    print("C18 debug: unconfirmed %s: %s (%s)" % (seq, again, fl["detail"][:300]), file=sys.stderr)
                 ev.inconclusive += 1
                 ev.cls("unconfirmed_failure")
                 continue
